@@ -54,38 +54,38 @@ type cscen struct {
 
 // ---------------------------------------------------------------- value construction
 
-type xs uint64
+type c10xs uint64
 
-func (x *xs) next() byte {
+func (x *c10xs) next() byte {
 	v := uint64(*x)
 	v ^= v << 13
 	v ^= v >> 7
 	v ^= v << 17
-	*x = xs(v)
+	*x = c10xs(v)
 	return byte(v >> 24)
 }
 
-func newXS(seed int) *xs {
-	x := xs(uint64(seed)*0x9E3779B97F4A7C15 + 0x2545F4914F6CDD1D)
+func c10newXS(seed int) *c10xs {
+	x := c10xs(uint64(seed)*0x9E3779B97F4A7C15 + 0x2545F4914F6CDD1D)
 	for i := 0; i < 8; i++ {
 		x.next()
 	}
 	return &x
 }
 
-func fillRandom(b []byte, x *xs) {
+func c10fillRandom(b []byte, x *c10xs) {
 	for i := range b {
 		b[i] = x.next()
 	}
 }
 
-func fillConst(b []byte, c byte) {
+func c10fillConst(b []byte, c byte) {
 	for i := range b {
 		b[i] = c
 	}
 }
 
-func fillPeriodic(b []byte, x *xs) {
+func c10fillPeriodic(b []byte, x *c10xs) {
 	var per [37]byte
 	for i := range per {
 		per[i] = x.next()
@@ -95,14 +95,14 @@ func fillPeriodic(b []byte, x *xs) {
 	}
 }
 
-var cWords = strings.Fields("the quick brown fox jumps over a lazy dog while beansdb stores every value " +
+var c10words = strings.Fields("the quick brown fox jumps over a lazy dog while beansdb stores every value " +
 	"in an append only data file and keeps an index of keys in memory so that reads need one seek " +
 	"compression is tried on a probe of ten kilobytes and kept when the ratio is good enough")
 
-func fillText(b []byte, x *xs) {
+func c10fillText(b []byte, x *c10xs) {
 	i := 0
 	for i < len(b) {
-		w := cWords[int(x.next())%len(cWords)]
+		w := c10words[int(x.next())%len(c10words)]
 		n := copy(b[i:], w)
 		i += n
 		if i < len(b) {
@@ -113,7 +113,7 @@ func fillText(b []byte, x *xs) {
 }
 
 // measured size of the C compressor's output (the same call TryCompress makes)
-func cLen(b []byte) int {
+func c10clen(b []byte) int {
 	if len(b) == 0 {
 		return 0
 	}
@@ -126,21 +126,21 @@ func cLen(b []byte) int {
 	return n
 }
 
-func above(c, n int) bool { return c*10 > n*7 }
+func c10above(c, n int) bool { return c*10 > n*7 }
 
 // region of n bytes = r random bytes followed by a constant run; r is searched so that the
 // MEASURED ratio of the region is the closest reachable one on the requested side of 0.7
 // (permille < 700: just below or equal; permille > 700: just above).
-func mixRegion(n int, permille int, x *xs) []byte {
+func c10mixRegion(n int, permille int, x *c10xs) []byte {
 	rnd := make([]byte, n)
-	fillRandom(rnd, x)
+	c10fillRandom(rnd, x)
 	build := func(r int) []byte {
 		b := make([]byte, n)
 		copy(b, rnd[:r])
-		fillConst(b[r:], 'm')
+		c10fillConst(b[r:], 'm')
 		return b
 	}
-	isAbove := func(r int) bool { return above(cLen(build(r)), n) }
+	isAbove := func(r int) bool { return c10above(c10clen(build(r)), n) }
 	lo, hi := 0, n // smallest r with isAbove(r) (if monotone)
 	if !isAbove(n) {
 		return build(n)
@@ -170,27 +170,27 @@ func mixRegion(n int, permille int, x *xs) []byte {
 	return build(r)
 }
 
-const cProbe = 10240
+const c10probe = 10240
 
-func buildValue(c *ccase, seed int) []byte {
+func c10buildValue(c *ccase, seed int) []byte {
 	n := c.Len
 	b := make([]byte, n)
-	x := newXS(seed)
+	x := c10newXS(seed)
 	switch c.Content {
 	case "const":
-		fillConst(b, 'c')
+		c10fillConst(b, 'c')
 	case "periodic":
-		fillPeriodic(b, x)
+		c10fillPeriodic(b, x)
 	case "text":
-		fillText(b, x)
+		c10fillText(b, x)
 	case "random":
-		fillRandom(b, x)
+		c10fillRandom(b, x)
 	case "mix":
 		pn := n
-		if pn > cProbe {
-			pn = cProbe
+		if pn > c10probe {
+			pn = c10probe
 		}
-		reg := mixRegion(pn, c.Permille, x)
+		reg := c10mixRegion(pn, c.Permille, x)
 		for off := 0; off < n; off += pn { // the tail repeats the same mix with fresh random bytes
 			k := copy(b[off:], reg)
 			if off > 0 {
@@ -198,31 +198,31 @@ func buildValue(c *ccase, seed int) []byte {
 				for r < k && reg[r] != 'm' {
 					r++
 				}
-				fillRandom(b[off:off+minInt(r, k)], x)
+				c10fillRandom(b[off:off+c10min(r, k)], x)
 			}
 		}
 	case "head_c_tail_i": // the probe compresses, the whole value does not
-		h := minInt(n, cProbe)
-		fillText(b[:h], x)
-		fillRandom(b[h:], x)
+		h := c10min(n, c10probe)
+		c10fillText(b[:h], x)
+		c10fillRandom(b[h:], x)
 	case "head_i_tail_c": // the probe does not compress, the whole value would
-		h := minInt(n, cProbe)
-		fillRandom(b[:h], x)
-		fillConst(b[h:], 't')
+		h := c10min(n, c10probe)
+		c10fillRandom(b[:h], x)
+		c10fillConst(b[h:], 't')
 	case "wav":
-		fillConst(b, 0)
+		c10fillConst(b, 0)
 		copy(b, []byte("RIFF\x24\x08\x00\x00WAVEfmt \x10\x00\x00\x00\x01\x00\x02\x00\x44\xac\x00\x00\x10\xb1\x02\x00\x04\x00\x10\x00data"))
 	case "mp3":
-		fillConst(b, 0)
+		c10fillConst(b, 0)
 		copy(b, []byte("ID3\x03\x00\x00\x00\x00\x0f\x76TIT2"))
 	default:
-		fillConst(b, '?')
+		c10fillConst(b, '?')
 	}
 	// make values of one scenario distinct from each other even for constant content
 	return b
 }
 
-func minInt(a, b int) int {
+func c10min(a, b int) int {
 	if a < b {
 		return a
 	}
@@ -233,7 +233,7 @@ func minInt(a, b int) int {
 // transcribed from the beansdb definition (NOT calling store.Getvhash / utils.Fnv1a):
 // fnv1a over SIGN-EXTENDED bytes; hash = len*97 + fnv(v) if len <= 1024,
 // else (len*97 + fnv(v[:512]))*97 + fnv(v[len-512:]); truncated to 16 bits.
-func refFnvSigned(b []byte) uint32 {
+func c10refFnv(b []byte) uint32 {
 	h := uint32(2166136261)
 	for _, c := range b {
 		var s uint32
@@ -248,22 +248,22 @@ func refFnvSigned(b []byte) uint32 {
 	return h
 }
 
-func refVHash(v []byte) int {
+func c10refVHash(v []byte) int {
 	n := len(v)
 	h := uint32(n) * 97
 	if n <= 1024 {
-		h += refFnvSigned(v)
+		h += c10refFnv(v)
 	} else {
-		h += refFnvSigned(v[:512])
+		h += c10refFnv(v[:512])
 		h *= 97
-		h += refFnvSigned(v[n-512:])
+		h += c10refFnv(v[n-512:])
 	}
 	return int(h & 0xffff)
 }
 
 // ---------------------------------------------------------------- codec cross-check
 
-func safely(f func() bool) (ok bool, perr string) {
+func c10safely(f func() bool) (ok bool, perr string) {
 	defer func() {
 		if e := recover(); e != nil {
 			ok = false
@@ -274,11 +274,11 @@ func safely(f func() bool) (ok bool, perr string) {
 }
 
 // both directions between the C and the Go QuickLZ, and the safe entry points
-func codecCross(v []byte, stored []byte) ev {
+func c10codecCross(v []byte, stored []byte) ev {
 	out := ev{}
 	errs := []string{}
 	put := func(name string, f func() bool) {
-		ok, perr := safely(f)
+		ok, perr := c10safely(f)
 		out[name] = ok
 		if perr != "" {
 			errs = append(errs, name+": "+perr)
@@ -354,10 +354,10 @@ func (c *crunner) realKey(m string, ksz int) string {
 	for len(s) < ksz {
 		s += "x"
 	}
-	return s[:maxInt(ksz, 1)] // the first byte tells the keys apart
+	return s[:c10max(ksz, 1)] // the first byte tells the keys apart
 }
 
-func maxInt(a, b int) int {
+func c10max(a, b int) int {
 	if a > b {
 		return a
 	}
@@ -375,15 +375,15 @@ func (c *crunner) set(m string, v []byte, cflag int, role string) ev {
 	key := []byte(c.r.real(m))
 	e["ksz"] = len(key)
 	e["recsize"] = 24 + len(key) + len(v)
-	pl := minInt(len(v), cProbe)
+	pl := c10min(len(v), c10probe)
 	e["probe_len"] = pl
-	e["probe_c"] = cLen(v[:pl])
-	e["full_c"] = cLen(v)
+	e["probe_c"] = c10clen(v[:pl])
+	e["full_c"] = c10clen(v)
 	mime := http.DetectContentType(v[:pl])
 	e["mime"] = mime
 	_, nc := Conf.NotCompress[mime]
 	e["nocomp"] = nc
-	e["vh"] = refVHash(v)
+	e["vh"] = c10refVHash(v)
 	c.vals[m] = v
 	c.nset++
 	e["id"] = c.nset
@@ -406,13 +406,13 @@ func (c *crunner) set(m string, v []byte, cflag int, role string) ev {
 	// what the store kept (internal: inputs of the drift comparison and of the codec check only)
 	e["sflag"] = int(p.Flag)
 	e["slen"] = len(p.Body)
-	e["svh"] = refVHash(p.Body) // hash of the STORED bytes: lets TLC name "vhash of compressed bytes"
+	e["svh"] = c10refVHash(p.Body) // hash of the STORED bytes: lets TLC name "vhash of compressed bytes"
 	var stored []byte
 	if p.Flag&FLAG_COMPRESS != 0 {
 		stored = append([]byte(nil), p.Body...)
 	}
 	if len(v) > 0 {
-		e["codec"] = codecCross(v, stored)
+		e["codec"] = c10codecCross(v, stored)
 	} else {
 		e["codec"] = ev{"c2g": true, "c2gs": true, "c2cs": true, "gcomp": true, "g2cs": true, "g2gs": true, "sized": true, "s2g": true, "empty": true}
 	}
@@ -474,7 +474,7 @@ func (c *crunner) diskObs(m string) ev {
 			nrec++
 			if int(x.Ver) >= d["ver"].(int) {
 				d["found"], d["flag"], d["vsz"], d["nblk"], d["c"], d["ver"] = true, int(x.Flag), len(x.Body), x.NBlk, ch, int(x.Ver)
-				d["vh"] = refVHash(x.Body)
+				d["vh"] = c10refVHash(x.Body)
 			}
 		}
 	}
@@ -543,10 +543,10 @@ func (c *crunner) op(name string) (e ev, stop bool) {
 	case "prev": // an older value of the same key (compressible text, no client flag), superseded by the case value
 		n := 3000 + c.cs.Seed%7
 		b := make([]byte, n)
-		fillText(b, newXS(c.cs.Seed+77))
+		c10fillText(b, c10newXS(c.cs.Seed+77))
 		e = c.set(c.key, b, 0, "prev")
 	case "set":
-		e = c.set(c.key, buildValue(cs, c.cs.Seed), cs.CFlag, "case")
+		e = c.set(c.key, c10buildValue(cs, c.cs.Seed), cs.CFlag, "case")
 	case "filler": // a small record of another key so that the next file exists (GC eligibility)
 		c.filler++
 		b := []byte(fmt.Sprintf("filler-%d", c.filler))
@@ -580,6 +580,9 @@ func (c *crunner) op(name string) (e ev, stop bool) {
 		vs.setProc("opener")
 		if err := c.r.open(); err != nil {
 			e["err"] = err.Error()
+			if strings.Contains(err.Error(), "did not finish") { // the harness's own 20 s wait, not the store
+				e["harness_timeout"] = true
+			}
 			stop = true
 			return
 		}
@@ -630,7 +633,7 @@ func (c *crunner) run(dir string) {
 	json.Unmarshal(cb, &conf)
 	vl.emit(ev{"a": "Reset", "sid": cs.ID, "l": 1, "case": conf, "seed": cs.Seed})
 	if err := r.open(); err != nil {
-		vl.emit(ev{"a": "Abort", "l": 1, "err": err.Error()})
+		vl.emit(ev{"a": "Abort", "l": 1, "err": err.Error(), "harness_timeout": strings.Contains(err.Error(), "did not finish")})
 		vl.emit(ev{"a": "End", "l": 1, "sid": cs.ID})
 		return
 	}
